@@ -279,6 +279,8 @@ var c17FileLists = [][]string{
 	{"123", "45", "6"},
 	{"Polish", "March", "may"},
 	{"語", "漢字", "かな", "語"},
+	{"100%", "a%sb", "%d", "50%off", "plain"},
+	{"back\\slash", "quo\"te", "tab", "$HOME", "`cmd`"},
 }
 
 func c17Words(c *Ctx, sample bool) {
